@@ -989,13 +989,17 @@ def _char_class(c):
 # texts with an inline link: the delimiters inside the link text are dealt with when the link is made and are gone
 # afterwards (CommonMark 6.3, "look for link or image": process emphasis on the text, then remove the delimiters) -
 # emphasis may enclose a link but cannot cross its boundary
+# texts with links: the emphasis and the link matches the specification gives (a link takes the delimiters between its
+# brackets off the stack, its opening bracket included: a later ']' finds no opener and stays literal text)
 LINK_TEXTS = {
-    '*a [b*](u) c*': [(0, 13, 'Emphasis')],
-    '[*a](u)*': [],
-    '*[a*](u)': [],
-    '[*a*](u)': [(1, 4, 'Emphasis')],
-    '**[a](u)**': [(0, 10, 'Strong')],
-    '_a [b_](u)_': [(0, 11, 'Emphasis')],
+    '*a [b*](u) c*': [(0, 13, 'Emphasis'), (3, 10, 'Link')],
+    '[*a](u)*': [(0, 7, 'Link')],
+    '*[a*](u)': [(1, 8, 'Link')],
+    '[*a*](u)': [(1, 4, 'Emphasis'), (0, 8, 'Link')],
+    '**[a](u)**': [(0, 10, 'Strong'), (2, 8, 'Link')],
+    '_a [b_](u)_': [(0, 11, 'Emphasis'), (3, 10, 'Link')],
+    '[a](u) b](v)': [(0, 6, 'Link')],
+    '[a](u) *b](v)*': [(0, 6, 'Link'), (7, 14, 'Emphasis')],
 }
 
 
@@ -1029,8 +1033,9 @@ def _scan_chunk(args):
         try:
             r = it.call_function(f, [text, None], {})
             got = []
+            kinds = ('Strong', 'Emphasis', 'Link', 'Image') if text in LINK_TEXTS else ('Strong', 'Emphasis')
             for mo in (r if isinstance(r, list) else []):
-                if isinstance(mo, Obj) and mo.attrs.get('type') in ('Strong', 'Emphasis'):
+                if isinstance(mo, Obj) and mo.attrs.get('type') in kinds:
                     got.append((mo.attrs.get('_start'), mo.attrs.get('_end'), mo.attrs.get('type')))
             got = sorted(got)
         except Raised as e:
